@@ -183,6 +183,13 @@ Definition uses_nillable_class (u : universe) : bool :=
                      || existsb (fun e => existsb (fun v => v_nillable v && match v_clazz v with Some _ => true | None => false end) (snd e))
                                 (m_elements (snd km))) (u_metas u).
 
+(* coverage: an xs:anyType element field *)
+Definition uses_anytype (u : universe) (cl : cls) : bool :=
+  existsb (fun k => match u_meta u k with
+                    | Some m => existsb (fun e => existsb is_object (snd e)) (m_elements m)
+                    | None => false
+                    end) (reach u (reach_fuel u) [cl] []).
+
 (* coverage: a class with a field of its own type *)
 Definition uses_recursion (u : universe) : bool :=
   existsb (fun km => existsb (N.eqb (fst km)) (class_children u (snd km))) (u_metas u).
